@@ -377,7 +377,12 @@ class WebsocketSession(object):
             return
 
         # Connected to the server, but not yet upgraded to websockets
-        yield events.Connected(url, proxy=proxy)
+        try:
+            yield events.Connected(url, proxy=proxy)
+        except GeneratorExit:
+            # The consumer stopped iterating, don't leave the socket open
+            self._close_socket()
+            raise
 
         selector = self._selector_cls(sock)
         log.debug('%r created', selector)
@@ -415,6 +420,11 @@ class WebsocketSession(object):
             # exception. The result is we are disconnected.
             self._close_socket()
             yield events.Disconnected('socket fail; {}'.format(error))
+        except GeneratorExit:
+            # The consumer stopped iterating (break, exception or close),
+            # which may happen at events not generated by websocket.feed
+            self._close_socket()
+            raise
         except Exception as error:  # pragma: no cover
             # It pays to be paranoid.
             log.exception('error in websocket loop')
